@@ -233,6 +233,11 @@ where
         }
     }
 
+    // No limb is discarded when k == 0: the carry starts at zero (it is otherwise whatever the scratch held).
+    if steps == 0 {
+        ZNXARI::znx_zero(carry);
+    }
+
     // Continues with shifted normalization
     for j in 0..size - steps {
         ZNXARI::znx_copy(tmp, res.at(res_col, size - steps - j - 1));
